@@ -153,3 +153,77 @@ def hide_prune_st(draw, refs, p_hide=3, p_prune=3):
             elements[str(h)] = {"hide": True}
     prune = draw(st.integers(0, p_prune)) == 0
     return elements, prune
+
+
+# --------------------------------------------------------------------------- sort orders
+# numeric-array cubes: column index / residuals are not defined across sub-variables
+NUMARR_MEASURES = ["mean", "sum", "stddev", "count_unweighted", "valid_count_unweighted",
+                   "count_weighted", "valid_count_weighted", "col_base_unweighted",
+                   "row_base_unweighted", "col_share_sum", "row_share_sum", "total_share_sum"]
+SORTABLE_MEASURES = [
+    "col_base_unweighted", "col_base_weighted", "col_index", "col_percent", "col_percent_moe",
+    "col_share_sum", "col_std_dev", "col_std_err", "mean", "population", "population_moe",
+    "p_value", "row_base_unweighted", "row_base_weighted", "row_percent", "row_percent_moe",
+    "row_share_sum", "row_std_dev", "row_std_err", "stddev", "sum", "table_base_unweighted",
+    "table_base_weighted", "table_percent", "table_percent_moe", "table_std_dev",
+    "table_std_err", "total_share_sum", "count_unweighted", "valid_count_unweighted",
+    "count_weighted", "valid_count_weighted", "z_score",
+]
+MARGINALS = ["unweighted_base", "weighted_base", "table_proportion", "scale_mean",
+             "scale_mean_stddev", "scale_mean_stderr", "scale_median"]
+STRAND_MEASURES = ["base_unweighted", "base_weighted", "count_unweighted", "count_weighted",
+                   "mean", "percent", "percent_moe", "percent_stddev", "percent_stderr",
+                   "population", "population_moe", "share_sum", "sum"]
+
+
+@st.composite
+def fixed_st(draw, refs):
+    if not refs or draw(st.integers(0, 2)) != 0:
+        return None
+    pool = list(refs) * 3 + [STALE]
+    fixed = {}
+    if draw(st.booleans()):
+        fixed["top"] = draw(st.lists(st.sampled_from(pool), min_size=1, max_size=2))
+    if draw(st.booleans()):
+        fixed["bottom"] = draw(st.lists(st.sampled_from(pool), min_size=1, max_size=2))
+    return fixed or None
+
+
+@st.composite
+def order_st(draw, own_refs, opp_refs, opp_insertion_ids, axis, kinds=None, measures=None):
+    """An `order` dict for one dimension.  axis: rows | cols | strand."""
+    measures = measures or SORTABLE_MEASURES
+    if kinds is None:
+        if axis == "strand":
+            kinds = ["payload", "explicit", "label", "univariate_measure",
+                     "univariate_measure"]
+        elif axis == "rows":
+            kinds = ["payload", "explicit", "label", "opposing_element", "opposing_element",
+                     "opposing_insertion", "marginal", "marginal"]
+        else:
+            kinds = ["payload", "explicit", "label", "opposing_element", "opposing_element",
+                     "opposing_insertion"]
+    kind = draw(st.sampled_from(kinds))
+    if kind == "payload":
+        return None if draw(st.booleans()) else {"type": "payload_order"}
+    if kind == "explicit":
+        return {"type": "explicit", "element_ids": draw(explicit_ids_st(own_refs))}
+    order = {"type": kind}
+    if draw(st.booleans()):
+        order["direction"] = draw(st.sampled_from(["ascending", "descending"]))
+    fixed = draw(fixed_st(own_refs))
+    if fixed:
+        order["fixed"] = fixed
+    if kind == "opposing_element":
+        order["element_id"] = draw(st.sampled_from(list(opp_refs) * 4 + [STALE])) \
+            if opp_refs else STALE
+        order["measure"] = draw(st.sampled_from(measures))
+    elif kind == "opposing_insertion":
+        order["insertion_id"] = draw(st.sampled_from(list(opp_insertion_ids) * 4 + [STALE])) \
+            if opp_insertion_ids else STALE
+        order["measure"] = draw(st.sampled_from(measures))
+    elif kind == "marginal":
+        order["marginal"] = draw(st.sampled_from(MARGINALS))
+    elif kind == "univariate_measure":
+        order["measure"] = draw(st.sampled_from(STRAND_MEASURES))
+    return order
